@@ -1,5 +1,6 @@
 //! L1 simulator entry point. See /verif/DESIGN.md §2.2.
 mod c10;
+mod c21;
 mod data;
 mod envutil;
 mod pool;
@@ -15,7 +16,7 @@ use dst_common::{Tier, seed_from_env};
 use runner::Check;
 
 fn checks() -> Vec<Check> {
-    vec![c10::check(), sqlchecks::c02(), sqlchecks::c05(), sqlchecks::c06(), sqlchecks::c08(), sqlchecks::c18(), sqlchecks::c19(), sqlchecks::c20()]
+    vec![c10::check(), c21::check(), sqlchecks::c02(), sqlchecks::c05(), sqlchecks::c06(), sqlchecks::c08(), sqlchecks::c18(), sqlchecks::c19(), sqlchecks::c20()]
 }
 
 fn usage() -> ! {
